@@ -17,7 +17,7 @@ import (
 
 func init() {
 	Registry["C15"] = Set{
-		Explanation: "Decides structural clauses of remote access control: H1 in every handshake role (Start, Accept incl. its Join branch, Join) each success return is dominated by a digest comparison whose mismatch edge fails and whose expected value depends both on the cookie and on a nonce generated locally in this invocation (value provenance through the hash object's Write/Sum state and fmt.Sprintf arguments) — a comparison without a local nonce accepts a replayed transcript; H2 the effective cookie reaches the handshake: the Cookie of the options passed to Accept/Start/Join may-flow (field-based heap flow) from the acceptor's / route's own cookie option and from the node cookie as fallback; H3 the Peer* fields of the handshake result originate from the peer's decoded Introduce and the Node* fields from the local options, field for field, in both roles, and the dialler compares the introduced name with the name it dialled; H4 NetworkFlags.MarshalEDF/UnmarshalEDF use the same bit for each field; H5 a remote spawn / application start is served only after the permission lookup for (name, authenticated peer name) succeeded, and both ends test the corresponding flag before sending/serving; H6 the requester's environment is copied into a request bound for another node only under the corresponding ExposeEnv* security option. Added while probing: H1 counts the cookie only as a direct input of the compared digest (a digest of the cookie that was sent to the peer is public). H2b the node cookie overwrites an endpoint's own cookie only on the edge that found it empty; H5 the capability flags are evaluated path-sensitively (effect unreachable under {Enable, !capability}, reachable under {Enable, capability}), the permission check is made in the name of the connection's peer, and Enable*/Disable* record true/false for each named node (sibling agreement of the four table writers).",
+		Explanation: "Decides structural clauses of remote access control: H1 in every handshake role (Start, Accept incl. its Join branch, Join) each success return is dominated by a digest comparison whose mismatch edge fails and whose expected value depends both on the cookie and on a nonce generated locally in this invocation (value provenance through the hash object's Write/Sum state and fmt.Sprintf arguments) — a comparison without a local nonce accepts a replayed transcript; H2 the effective cookie reaches the handshake: the Cookie of the options passed to Accept/Start/Join may-flow (field-based heap flow) from the acceptor's / route's own cookie option and from the node cookie as fallback; H3 the Peer* fields of the handshake result originate from the peer's decoded Introduce and the Node* fields from the local options, field for field, in both roles, and the dialler compares the introduced name with the name it dialled; H4 NetworkFlags.MarshalEDF/UnmarshalEDF use the same bit for each field; H5 a remote spawn / application start is served only after the permission lookup for (name, authenticated peer name) succeeded, and both ends test the corresponding flag before sending/serving; H6 the requester's environment is copied into a request bound for another node only under the corresponding ExposeEnv* security option. Added while probing: H1 counts the cookie only as a direct input of the compared digest (a digest of the cookie that was sent to the peer is public). H2b the node cookie overwrites an endpoint's own cookie only on the edge that found it empty; H5 the capability flags are evaluated path-sensitively (effect unreachable under {Enable, !capability}, reachable under {Enable, capability}), the permission check is made in the name of the connection's peer, and Enable*/Disable* record true/false for each named node (sibling agreement of the four table writers). H1 also: a message carrying a digest of (peer-chosen input, cookie) is written only behind the match edge of a cookie-dependent digest check of that peer (no digest oracle for an unauthenticated peer).",
 		NotDecided: []string{
 			"cryptographic strength of the digest construction, TLS",
 			"enable/disable histories of the permission tables at run time (only that the lookup dominates the effect)",
@@ -216,7 +216,7 @@ func findDigestCmps(f *ssa.Function) []digestCmp {
 // c15Auth: H1
 func c15Auth(p *load.Program, r *core.Report) {
 	rule := "C15.H1 authentication-dominates-success"
-	r.Floor(rule, 11)
+	r.Floor(rule, 14)
 	for _, name := range []string{"Start", "Accept", "Join"} {
 		f := p.Func("net/handshake", "handshake", name)
 		if f == nil {
@@ -271,6 +271,34 @@ func c15Auth(p *load.Program, r *core.Report) {
 				r.Bad(rule, key, fn, p.Pos(ret.Pos()), inst, "the only digest checks on this path depend on the cookie and on values chosen by the peer, not on a nonce generated locally in this invocation: a peer that does not know the cookie can replay a recorded message and is accepted ("+strings.Join(descr, "; ")+")")
 			default:
 				r.OK(rule, key, fn, p.Pos(ret.Pos()), inst, strings.Join(descr, "; "))
+			}
+		})
+		// no oracle: a digest that mixes the cookie with input chosen by the peer is handed to the
+		// peer only after the peer has passed a digest check of its own (otherwise a peer that does
+		// not know the cookie obtains H(its salt : cookie) and uses it against a third node)
+		nw := 0
+		eachInstr(f, func(in ssa.Instruction) {
+			cc := callCommon(in)
+			if cc == nil || !callsNamed(in, "writeMessage") || len(cc.Args) < 2 {
+				return
+			}
+			tags := provTags(cc.Args[len(cc.Args)-1])
+			if !(tags["cookie"] && tags["peer"]) {
+				return
+			}
+			nw++
+			key := fmt.Sprintf("C15.H1|%s|answer#%d", fn, nw)
+			inst := "a message carrying a digest of (peer-chosen input, cookie) is written only after the peer passed a digest check"
+			ok := false
+			for _, c := range cmps {
+				if c.tags["cookie"] && len(c.match) > 0 && edgesDominate(c.match, in) {
+					ok = true
+				}
+			}
+			if ok {
+				r.OK(rule, key, fn, p.Pos(in.Pos()), inst, "dominated by the match edge of a cookie-dependent digest comparison")
+			} else {
+				r.Bad(rule, key, fn, p.Pos(in.Pos()), inst, "the answer is sent before the peer was checked: this node computes H(salt chosen by the peer : cookie) for anyone who asks — a peer without the cookie relays a challenge it received elsewhere and completes that handshake with the answer")
 			}
 		})
 		// every mismatch edge fails
